@@ -192,25 +192,37 @@ def run_seeds(pid, repo_path, jobs=16):
     return {'seeds': len(work), 'reported': rep, 'skipped': skipped, 'bad': bad}
 
 
-def run_for_property(pid, repo_path):
-    """thorough tier: the checker's own validation; a failure means the
-    checker cannot be trusted -> ANALYSIS-ERROR (exit 2), never a VIOLATION"""
+def run_for_property(pid, repo_path, modules=None):
+    """thorough tier: the checker's own validation on scratch copies of the working tree -- the self-test corpora, the stored
+    independent seeds and the behaviour-preserving variants of sa/equiv.py.  What it finds is about the *checker*, not about
+    /repo: it is printed (SELF-VALIDATION lines) and recorded in the evidence, and it does not change the verdict on /repo
+    (on a tree that has drifted from the pinned one a variant may legitimately stop applying or change its meaning)."""
     res = run(repo_path, props=[pid])
     print('== self-test %s: %d variants, %d evaluations, %d skipped (anchor absent), %d wrong, %.1fs'
           % (pid, res['variants'], res['evaluations'], res['skipped'], len(res['bad']), res['wall']))
     for vid, p, x in res['bad']:
-        print('ANALYSIS-ERROR property=%s rule=selftest reason=variant %s: wanted %s got %s (rules %s)'
+        print('SELF-VALIDATION property=%s corpus variant %s: wanted %s got %s (rules %s)'
               % (pid, vid, x['want'], x['got'], ','.join(x['rules_hit'])))
     sr = run_seeds(pid, repo_path)
     print('== seeded changes %s: %d recorded as reported by this check, %d reported again, %d skipped (patch no longer applies), %d no longer reported'
           % (pid, sr['seeds'], sr['reported'], sr['skipped'], len(sr['bad'])))
     for sid, code in sr['bad']:
-        print('ANALYSIS-ERROR property=%s rule=selftest reason=seeded change %s is no longer reported (exit %s)' % (pid, sid, code))
+        print('SELF-VALIDATION property=%s seeded change %s is no longer reported (exit %s)' % (pid, sid, code))
+    from . import equiv
+    t0 = time.time()
+    er = equiv.run_for_property(pid, repo_path, modules=modules)
+    print('== behaviour-preserving variants %s: %d applicable, %d silent, %d not silent, %.1fs'
+          % (pid, er['variants'], er['silent'], len(er['not_silent']), time.time() - t0))
+    for b in er['not_silent']:
+        print('SELF-VALIDATION property=%s behaviour-preserving variant %s of %s:%s is not silent: %s'
+              % (pid, b['transformation'], b['module'], b['function'], str(b['detail'])[:200]))
     LAST.clear()
     LAST.update({'corpus_variants': res['variants'], 'corpus_evaluations': res['evaluations'], 'corpus_skipped': res['skipped'],
                  'corpus_wrong': len(res['bad']), 'seeds_recorded': sr['seeds'], 'seeds_reported': sr['reported'],
-                 'seeds_skipped': sr['skipped'], 'seeds_not_reported': [b[0] for b in sr['bad']]})
-    return 2 if (res['bad'] or sr['bad']) else 0
+                 'seeds_skipped': sr['skipped'], 'seeds_not_reported': [b[0] for b in sr['bad']],
+                 'equivalent_variants': er['variants'], 'equivalent_variants_silent': er['silent'],
+                 'equivalent_variants_not_silent': er['not_silent'], 'equivalence_transformations': er['transformations']})
+    return 2 if (res['bad'] or sr['bad'] or er['not_silent']) else 0
 
 
 LAST = {}
